@@ -18,15 +18,16 @@ written statement for statement (C10; reused as modelled leaves by C03).
 set_option linter.constructorNameAsVariable false
 namespace OdlModel.Prox
 
+/-- Buffer ids are natural numbers (written `Nat` in the signatures so that `omega` sees them). -/
 abbrev Buf := Nat
 abbrev Vec (K : Type) := Nat → K
 
 /-- Store: contents of every buffer and the allocation counter. -/
 structure St (K : Type) where
-  mem : Buf → Vec K
-  next : Buf
+  mem : Nat → Vec K
+  next : Nat
 
-def St.write {K} (s : St K) (b : Buf) (v : Vec K) : St K :=
+def St.write {K} (s : St K) (b : Nat) (v : Vec K) : St K :=
   { s with mem := fun b' => if b' = b then v else s.mem b' }
 
 /-- Python names used in the bodies. `g sig lo up` are the closed-over data (`g`, element
@@ -36,9 +37,9 @@ inductive Var
   | diff | tmp | denom | u | v | t1 | t2 | step | xnorm | mask | signx | offset | lambw | nrm
   deriving DecidableEq, Repr
 
-abbrev Env := Var → Buf
+abbrev Env := Var → Nat
 
-def Env.set (e : Env) (v : Var) (b : Buf) : Env := fun w => if w = v then b else e w
+def Env.set (e : Env) (v : Var) (b : Nat) : Env := fun w => if w = v then b else e w
 
 /-- Statements. `F` receives the values of the listed sources by position. -/
 inductive Stmt (K : Type)
@@ -64,7 +65,7 @@ infixr:60 " ;; " => Stmt.seq
 def srcVals {K} (env : Env) (s : St K) (dflt : Var) (srcs : List Var) : Nat → Vec K :=
   fun k => s.mem (env (srcs.getD k dflt))
 
-def exec {K} (jk : Buf → Vec K) : Stmt K → Env × St K → Env × St K
+def exec {K} (jk : Nat → Vec K) : Stmt K → Env × St K → Env × St K
   | .skip, es => es
   | .seq s t, es => exec jk t (exec jk s es)
   | .set dst srcs F, (env, s) => (env, s.write (env dst) (F (srcVals env s dst srcs)))
@@ -80,11 +81,11 @@ def exec {K} (jk : Buf → Vec K) : Stmt K → Env × St K → Env × St K
   | .ifC a c t e, (env, s) => if c (s.mem (env a)) then exec jk t (env, s) else exec jk e (env, s)
 
 /-- Buffer ids of the closed-over data. Locals are unbound (bound to id 9) until assigned. -/
-def env0 (xb ob : Buf) : Env
+def env0 (xb ob : Nat) : Env
   | .x => xb | .out => ob | .g => 2 | .sig => 3 | .lo => 4 | .up => 5 | _ => 9
 
 /-- Run a body with `x ↦ xb`, `out ↦ ob` on initial memory `m`; fresh ids start at 10. -/
-def run {K} (jk : Buf → Vec K) (P : Stmt K) (xb ob : Buf) (m : Buf → Vec K) : St K :=
+def run {K} (jk : Nat → Vec K) (P : Stmt K) (xb ob : Nat) (m : Nat → Vec K) : St K :=
   (exec jk P (env0 xb ob, { mem := m, next := 10 })).2
 
 /-! ### Parameters: scalar type operations that are not notation, and external functions -/
